@@ -3,7 +3,7 @@
    hybrid Dantzig/Bland rule) is NOT proved; it is exercised as a test over histories (DESIGN.md C14). *)
 From Coq Require Import QArith Reals List String.
 From Rooc Require Import Base.XQ Model.Exp Model.Bounds Model.Linearize Model.Spec Model.Standardize Model.Tableau
-  Proof.PivotSound.
+  Proof.PivotSound Proof.TableauStart.
 Import ListNotations.
 Local Close Scope Q_scope.
 Local Open Scope R_scope.
@@ -56,7 +56,43 @@ Theorem C14_finished_optimal :
     Forall (fun c => 0 <= xval c) (t_c t) -> Forall (fun v => 0 <= v) x -> - xval (t_value t) <= objective t x.
 Proof. exact finished_optimal. Qed.
 
+(* the direct start of into_tableau: every column it makes basic is a unit column - its entry in its row is positive and
+   every other entry is exactly zero (the repair of F56); with the solver's 1e-5 tolerance in that test the statement is
+   false, witness: max x + y, 0.000004x + y <= 1, x <= 100000 *)
+Theorem C14_direct_start_takes_unit_columns :
+  forall (s : stdmodel) (row col : nat) (v : xq), In (row, col, v) (independent_vars s) ->
+    exists c, nth_error (sm_cons s) row = Some c /\ v = nthx (eq_coeffs c) col /\ f_gt v x0 = true /\
+      forall row' c', nth_error (sm_cons s) row' = Some c' -> row' <> row -> xq_is_zero (nthx (eq_coeffs c') col) = true.
+Proof. exact independent_vars_unit_column. Qed.
+Theorem C14_tolerant_unit_column_test_refuted :
+  exists s row col v, In (row, col, v) (independent_vars_tolerant s) /\
+    exists row' c', nth_error (sm_cons s) row' = Some c' /\ row' <> row /\ xq_is_zero (nthx (eq_coeffs c') col) = false.
+Proof. exact independent_vars_tolerant_refuted. Qed.
+
+(* ---- the absolute tolerance inside the pivoting rules (findings F59 / F59b): on badly scaled tableaux the model of the
+   code - like the code - loses feasibility in one step, and stops at a point that is not optimal *)
+Theorem C14_tolerant_ratio_test_refuted :
+  exists t, all_nonneg (t_b t) = true /\
+    exists t' h tr, step_inner t [] false = SPivot t' h tr /\ existsb (fun b => xq_ltb b (Fin (-8)%Q)) (t_b t') = true.
+Proof. exact tolerant_ratio_test_loses_feasibility_refuted. Qed.
+Theorem C14_tolerant_optimality_test_refuted :
+  exists t x, all_nonneg (t_b t) = true /\ is_optimal t = true /\
+    xsat t x = true /\ all_nonneg x = true /\ xq_ltb (xdot (t_c t) x) (Fin (-49)%Q) = true /\ t_value t = Fin 0%Q.
+Proof. exact tolerant_optimality_test_refuted. Qed.
+
+(* finding F57: the phase-one verdict of the two-phase start accepts a residual below 1e-5 *)
+Theorem C14_two_phase_accepts_near_infeasible_refuted :
+  exists s, (exists t, into_tableau s = inr t) /\
+    sm_cons s = [mkEQ [Fin 1%Q; Fin 1%Q; Fin 1%Q; Fin 0%Q] (Fin 1%Q); mkEQ [Fin 1%Q; Fin 1%Q; Fin 0%Q; Fin (-1)%Q] (Fin (1000005 # 1000000)%Q)] /\
+    forall a b s1 s2 : Q, (0 <= a -> 0 <= b -> 0 <= s1 -> 0 <= s2 -> ~ (a + b + s1 == 1 /\ a + b - s2 == 1000005 # 1000000))%Q.
+Proof. exact two_phase_accepts_infeasible_refuted. Qed.
+
 Print Assumptions C14_pivot_equiv.
+Print Assumptions C14_two_phase_accepts_near_infeasible_refuted.
+Print Assumptions C14_tolerant_ratio_test_refuted.
+Print Assumptions C14_tolerant_optimality_test_refuted.
+Print Assumptions C14_direct_start_takes_unit_columns.
+Print Assumptions C14_tolerant_unit_column_test_refuted.
 Print Assumptions C14_every_prefix.
 Print Assumptions C14_pivot_feasible.
 Print Assumptions C14_pivot_monotone.
